@@ -779,7 +779,7 @@ static void op_collect(void) {
 }
 
 /* ------------------------------------------------------------------ visit (C12) */
-typedef struct { long count; int stopat; int first; long areas; int afirst; const mi_heap_area_t* cur; } visit_t;
+typedef struct { long count; int stopat; int first; long areas; int afirst; const mi_heap_area_t* cur; int stopped; long after; } visit_t;   /* stopat > 0: return false at that block, < 0: at that area announcement */
 static char* vbuf = NULL; static size_t vlen = 0, vcap = 0;
 static char* abuf = NULL; static size_t alen = 0, acap = 0;
 static void bufcat(char** b, size_t* len, size_t* cap, const char* s) {
@@ -790,10 +790,12 @@ static void bufcat(char** b, size_t* len, size_t* cap, const char* s) {
 static bool visitor(const mi_heap_t* heap, const mi_heap_area_t* area, void* block, size_t bsize, void* arg) {
   visit_t* v = (visit_t*)arg; char tmp[160];
   (void)heap;
+  if (v->stopped) { v->after++; return false; }      /* the walk went on although the visitor had returned false */
   if (block == NULL) {   /* area announcement */
     size_t len = area->reserved;
     snprintf(tmp, sizeof(tmp), "%s[%ld,%ld,%ld,%ld,%zu,%zu]", v->afirst ? "" : ",", VF_HI(area->blocks), VF_LO(area->blocks), VF_HI(len), VF_LO(len), area->used, area->block_size);
     bufcat(&abuf, &alen, &acap, tmp); v->afirst = 0; v->areas++;
+    if (v->stopat < 0 && v->areas >= -(long)v->stopat) { v->stopped = 1; return false; }
     return true;
   }
   v->count++;
@@ -801,7 +803,7 @@ static bool visitor(const mi_heap_t* heap, const mi_heap_area_t* area, void* blo
     snprintf(tmp, sizeof(tmp), "%s[%ld,%ld,%zu]", v->first ? "" : ",", VF_HI(block), VF_LO(block), bsize);
     bufcat(&vbuf, &vlen, &vcap, tmp); v->first = 0;
   }
-  if (v->stopat > 0 && v->count >= v->stopat) return false;
+  if (v->stopat > 0 && v->count >= v->stopat) { v->stopped = 1; return false; }
   return true;
 }
 static void op_visit(int hidx, int stopat) {
@@ -812,7 +814,7 @@ static void op_visit(int hidx, int stopat) {
   r.res = mi_heap_visit_blocks(hps[hidx].hp, true, visitor, &v);
   r.nvisited = v.count; r.h = hps[hidx].id;
   log_ret_begin("visit", &r);
-  vf_logf(",\"blocks\":["); vf_log_raw(vbuf, vlen); vf_logf("],\"areas\":["); vf_log_raw(abuf, alen); vf_logf("]");
+  vf_logf(",\"after\":%ld,\"nareas\":%ld,\"blocks\":[", v.after, v.areas); vf_log_raw(vbuf, vlen); vf_logf("],\"areas\":["); vf_log_raw(abuf, alen); vf_logf("]");
   log_obs(-1, -1, 0); log_ret_end();
 }
 
@@ -1035,7 +1037,7 @@ static void alloc_many(int count, size_t lo, size_t hi, int ops_mix) {
   }
 }
 /* worker thread: allocates, frees part, exits (its remaining blocks are freed by the main thread afterwards) */
-typedef struct { int t; int heapid; int count; size_t lo, hi; uint64_t seed; } worker_t;
+typedef struct { int t; int heapid; int count; size_t lo, hi; uint64_t seed; int mode; int victim; } worker_t;   /* mode 0: allocate, free half, exit; 1: allocate, exit with everything live; 2: free every block of heap `victim`, exit */
 static void* worker_main(void* arg) {
   worker_t* w = (worker_t*)arg;
   cur_t = w->t; cur_theap = w->heapid;
@@ -1043,9 +1045,10 @@ static void* worker_main(void* arg) {
   vf_cur_thread = w->t;
 #endif
   vf_logf("{\"e\":\"tstart\",\"t\":%d,\"h\":%d}", w->t, w->heapid); vf_log_line_end();
-  alloc_many(w->count, w->lo, w->hi, 1);
+  if (w->mode != 2) alloc_many(w->count, w->lo, w->hi, w->mode == 0);
   int k = 0;
-  for (int s = 0; s < MAXSLOTS; s++) if (slots[s].p && slots[s].heap == w->heapid && (k++ % 2) == 0) op_free_slot(s, FR_free);
+  if (w->mode == 0) { for (int s = 0; s < MAXSLOTS; s++) if (slots[s].p && slots[s].heap == w->heapid && (k++ % 2) == 0) op_free_slot(s, FR_free); }
+  if (w->mode == 2) { for (int s = 0; s < MAXSLOTS; s++) if (slots[s].p && slots[s].heap == w->victim) op_free_slot(s, FR_free); }
   vf_logf("{\"e\":\"tdone\",\"t\":%d}", w->t); vf_log_line_end();   /* logged first: the thread's heap descriptors are released inside mi_thread_done */
   vf_in_call = 1; mi_thread_done(); vf_in_call = 0;   /* (also called again by the pthread key destructor: harmless) */
   cur_t = 0; cur_theap = 0;
@@ -1055,10 +1058,12 @@ static void* worker_main(void* arg) {
   return NULL;
 }
 static int next_thread_id = 1;
-static void run_worker(int count, size_t lo, size_t hi) {
-  worker_t w; w.t = next_thread_id++; w.heapid = next_heap_id++; w.count = count; w.lo = lo; w.hi = hi; w.seed = vf_rand();
+static int run_worker_ex(int count, size_t lo, size_t hi, int mode, int victim) {
+  worker_t w; w.t = next_thread_id++; w.heapid = next_heap_id++; w.count = count; w.lo = lo; w.hi = hi; w.seed = vf_rand(); w.mode = mode; w.victim = victim;
   pthread_t th; pthread_create(&th, NULL, worker_main, &w); pthread_join(th, NULL);
+  return w.heapid;
 }
+static void run_worker(int count, size_t lo, size_t hi) { run_worker_ex(count, lo, hi, 0, 0); }
 /* one allocate-everything phase of workload `wl` */
 static void workload_alloc(const char* wl) {
   if (!strcmp(wl, "small")) { alloc_many(260, 1, 1024, 1); alloc_many(60, 1025, 8192, 1); }
@@ -1076,6 +1081,9 @@ static void workload_alloc(const char* wl) {
                                   vf_clock_advance(500); do_collect(1);
 #endif
                                   alloc_many(280, 270000, 420000, 1); alloc_many(6, (size_t)2 << 20, (size_t)6 << 20, 0); }
+  else if (!strcmp(wl, "relay")) {   /* a producer thread exits with everything live (several segments, full pages); a consumer thread frees all of it and exits too:
+                                        nobody who touched that memory is alive any more, it must still be given back */
+                                  int ph = run_worker_ex(260, 200000, 262000, 1, 0); run_worker_ex(0, 0, 0, 2, ph); alloc_many(10, 1, 100000, 1); }
   else if (!strcmp(wl, "mix")) { alloc_many(120, 1, 2048, 1); alloc_many(20, 8193, 600000, 1); alloc_many(1, 17u << 20, 20u << 20, 0); run_worker(60, 1, 70000); }
   else { fprintf(stderr, "unknown workload %s\n", wl); exit(2); }
 }
